@@ -1134,7 +1134,11 @@ pub fn c17_case(ctx: &mut Ctx, rng: &mut Rng) {
             }
         }
     }
-    if ctx.index % 2 == 0 {
+    if ctx.thorough() && ctx.index == 1 {
+        c17_medium_scope(ctx, &lists);
+        return;
+    }
+    if ctx.index % 2 == 0 && ctx.index / 2 < ctx_slices(ctx) {
         // small scope, exhaustive: all lists of <= 3 rules with patterns of length <= 2 over
         // {*, a, b, (a|b)}; every rule has its own output so that the rule applied is observable.
         // The scope is partitioned over (shard, index/2): slice t of T.
@@ -1214,6 +1218,58 @@ pub fn c17_case(ctx: &mut Ctx, rng: &mut Rng) {
         }
         ctx.bucket("random_rule_lists");
     }
+}
+
+/// Thorough tier: all lists of <= 3 rules with patterns of length <= 3 over {*, a, b, (a|b)}
+/// (84 + 84^2 + 84^3 = 599 844 rule lists), each against all 341 feature lists of length <= 4
+/// over {a, b, c, *}; the lists are split over the shards.
+fn c17_medium_scope(ctx: &mut Ctx, lists3: &[Vec<String>]) {
+    let s = |x: &str| x.to_string();
+    let fa = ["a", "b", "c", "*"];
+    let mut lists: Vec<Vec<String>> = lists3.to_vec();
+    for x in fa {
+        for y in fa {
+            for z in fa {
+                for w in fa {
+                    lists.push(vec![s(x), s(y), s(z), s(w)]);
+                }
+            }
+        }
+    }
+    let pa = ["*", "a", "b", "(a|b)"];
+    let mut pats: Vec<Vec<String>> = vec![];
+    for x in pa {
+        pats.push(vec![s(x)]);
+        for y in pa {
+            pats.push(vec![s(x), s(y)]);
+            for z in pa {
+                pats.push(vec![s(x), s(y), s(z)]);
+            }
+        }
+    }
+    let np = pats.len(); // 84
+    let total = np + np * np + np * np * np;
+    let mut n = 0u64;
+    for id in ((ctx.shard as usize)..total).step_by(ctx.nshards as usize) {
+        let idxs: Vec<usize> = if id < np {
+            vec![id]
+        } else if id < np + np * np {
+            let k = id - np;
+            vec![k / np, k % np]
+        } else {
+            let k = id - np - np * np;
+            vec![k / (np * np), (k / np) % np, k % np]
+        };
+        let rules: Vec<Rule> = idxs.iter().enumerate().map(|(i, &p)| (pats[p].clone(), vec![format!("R{}", i + 1), s("$2")])).collect();
+        let sec = ["unigram", "left", "right"][id % 3];
+        let text = rules_text(&[(sec, &rules)]);
+        if !c17_check(ctx, &text, sec, &rules, &lists) {
+            return;
+        }
+        n += 1;
+    }
+    ctx.total("rule_lists_in_medium_scope", n);
+    ctx.bucket("medium_scope_slice_enumerated");
 }
 
 /// number of slices each shard splits its part of the small scope into (so that the whole scope is
